@@ -249,6 +249,29 @@ FEATURE_SETS = [("none", ""), ("core", "core"), ("core+utf8", "core,utf8"), ("de
 _VFEAT_BINS = {}
 
 
+_VAUTO_BINS = {}
+
+
+def _c08_feature_lane(res, tier):
+    """anstream built without its default features (none / auto only / wincon only): the modes of AutoStream::new must not depend on them."""
+    import os
+    import shutil
+    for name, feats in (("none", ""), ("auto", "auto"), ("wincon", "wincon")):
+        if name not in _VAUTO_BINS:
+            td = common.cargo_build(["vautofeat"], "release", extra_args=["--no-default-features"] + (["--features", feats] if feats else []))
+            dst_dir = os.path.join(td, "featbins")
+            os.makedirs(dst_dir, exist_ok=True)
+            dst = os.path.join(dst_dir, "vautofeat-" + name)
+            shutil.copy2(os.path.join(td, "release", "vautofeat"), dst)
+            _VAUTO_BINS[name] = dst
+        d = common.run_json([_VAUTO_BINS[name], tier, str(common.SEED)], _timeout(tier))
+        lane = "anstream-features=%s" % name
+        for v in d.get("violations", []):
+            res.violations.append({"sig": v["sig"], "count": v.get("count", 1), "check": "c08", "lane": lane,
+                                   "example": {"msg": v["msg"], "case": {"kind": "c08-features", "features": name, "bytes_hex": [v.get("input_hex", "")], "nums": []}}})
+        res.add_lane(lane, "held" if not d.get("violation_count") else "violated", {k: d[k] for k in ("features", "streams_per_choice_never_alwaysansi_always_auto")}, evaluations=d["evaluations"], distinct=d["distinct_nontrivial"])
+
+
 def build_vfeat(name, feats):
     import os
     import shutil
@@ -444,8 +467,9 @@ reg(
 
 def _run_c08(res, tier):
     vh_lane(res, tier, "c08")
-    _c09.adapted_lane(res)
+    _c09.adapted_lane(res, tier)
     _c09.lockseq_lane(res)
+    _c08_feature_lane(res, tier)
 
 
 def _replay_c08(doc):
